@@ -208,7 +208,9 @@ Fixpoint write_loop (o : list wanswer) (q : qsend) (data : wbuf)
     match o with
     | [] => (Pending, q, Some data, [])
     | WBlocked :: o' => (Pending, q, Some data, o')
-    | WFail e :: o' => (Ready (of_conv (convert_write_error e)), q, Some data, o')
+    | WFail e :: o' =>
+        (* `self.writing = None; return Ready(Err(..))` when the buffer is given up on a write error; with `?` it stays *)
+        (Ready (of_conv (convert_write_error e)), q, (if poll_ready_gives_up_on_error then None else Some data), o')
     | WAccept k :: o' =>
         let c := wb_chunk data in
         let written := N.min k (len c) in
@@ -354,12 +356,13 @@ Fixpoint drive_ready (fuel : nat) (o : list wanswer) (s : send_stream) : poll (s
    completed `async move` block (polling it again panics) *)
 Inductive fut := FutInit | FutReading (s : qrecv) | FutDone.
 
-Record recv_stream := { r_id : N; r_stream : option qrecv; r_fut : fut; r_pending_stop : option N }.
+(* r_reset: the `reset` field - the code of the peer's RESET_STREAM once a read has reported it *)
+Record recv_stream := { r_id : N; r_stream : option qrecv; r_fut : fut; r_pending_stop : option N; r_reset : option N }.
 
 (* RecvStream::new *)
 Definition recv_new (q : qrecv) : res unit recv_stream :=
   match sid_try_from (qr_id q) with
-  | Some id => Ok {| r_id := id; r_stream := Some q; r_fut := FutInit; r_pending_stop := None |}
+  | Some id => Ok {| r_id := id; r_stream := Some q; r_fut := FutInit; r_pending_stop := None; r_reset := None |}
   | None => Panic 50
   end.
 
@@ -373,15 +376,22 @@ Definition read_result (a : ranswer) : sres (option bytes) :=
   | RBlocked => Panic 32
   end.
 
-(* fn poll_data; one oracle answer per poll of the read future (none left = still blocked) *)
-Definition poll_data (o : list ranswer) (r : recv_stream) : poll (sres (option bytes)) * recv_stream * list ranswer :=
+(* fn poll_data; one oracle answer per poll of the read future (none left = still blocked).
+   `memo` = the reset memo is present: `if let Some(error_code) = self.reset { return Ready(Err(StreamTerminated)) }`
+   first thing (Quinn is not asked), and `if let Err(ReadError::Reset(c)) = &chunk { self.reset = Some(c) }` after the
+   stream has been put back, before the chunk is converted *)
+Definition poll_data_with (memo : bool) (o : list ranswer) (r : recv_stream)
+  : poll (sres (option bytes)) * recv_stream * list ranswer :=
+  match (if memo then r_reset r else None) with
+  | Some c => (Ready (Err (HStreamTerminated c)), r, o)
+  | None =>
   (* if let Some(mut stream) = self.stream.take() { self.read_chunk_fut.set(..) } *)
   let f := match r_stream r with Some q => FutReading q | None => r_fut r end in
   match f with
-  | FutInit => (Ready (Panic 51), {| r_id := r_id r; r_stream := None; r_fut := f; r_pending_stop := r_pending_stop r |}, o)
-  | FutDone => (Ready (Panic 52), {| r_id := r_id r; r_stream := None; r_fut := f; r_pending_stop := r_pending_stop r |}, o)
+  | FutInit => (Ready (Panic 51), {| r_id := r_id r; r_stream := None; r_fut := f; r_pending_stop := r_pending_stop r; r_reset := r_reset r |}, o)
+  | FutDone => (Ready (Panic 52), {| r_id := r_id r; r_stream := None; r_fut := f; r_pending_stop := r_pending_stop r; r_reset := r_reset r |}, o)
   | FutReading q =>
-      let blocked := {| r_id := r_id r; r_stream := None; r_fut := FutReading q; r_pending_stop := r_pending_stop r |} in
+      let blocked := {| r_id := r_id r; r_stream := None; r_fut := FutReading q; r_pending_stop := r_pending_stop r; r_reset := r_reset r |} in
       match o with
       | [] => (Pending, blocked, [])
       | RBlocked :: o' => (Pending, blocked, o')
@@ -395,20 +405,27 @@ Definition poll_data (o : list ranswer) (r : recv_stream) : poll (sres (option b
           let back := if poll_data_puts_back
                       then (match a with RFail _ => poll_data_puts_back_on_error | _ => true end)
                       else false in
+          let rs := match a with
+                    | RFail (QRReset c) => if memo then Some c else r_reset r
+                    | _ => r_reset r
+                    end in
           (Ready (read_result a),
-           {| r_id := r_id r; r_stream := (if back then Some q' else None); r_fut := FutDone; r_pending_stop := ps |},
+           {| r_id := r_id r; r_stream := (if back then Some q' else None); r_fut := FutDone; r_pending_stop := ps; r_reset := rs |},
            o')
       end
+  end
   end.
+Definition poll_data := poll_data_with poll_data_reset_memo.
 
 (* fn stop_sending *)
 Definition stop_sending (code : N) (r : recv_stream) : res unit unit * recv_stream :=
   if varint_max <? code then (Panic 53, r)
   else match r_stream r with
-       | Some q => (Ok tt, {| r_id := r_id r; r_stream := Some (q_stop code q); r_fut := r_fut r; r_pending_stop := r_pending_stop r |})
+       | Some q => (Ok tt, {| r_id := r_id r; r_stream := Some (q_stop code q); r_fut := r_fut r; r_pending_stop := r_pending_stop r;
+                              r_reset := r_reset r |})
        | None =>
            if stop_sending_defers
-           then (Ok tt, {| r_id := r_id r; r_stream := None; r_fut := r_fut r; r_pending_stop := Some code |})
+           then (Ok tt, {| r_id := r_id r; r_stream := None; r_fut := r_fut r; r_pending_stop := Some code; r_reset := r_reset r |})
            else (Ok tt, r)
        end.
 
